@@ -63,7 +63,8 @@ CLAIM = dict(
          "from lexer.py each run equal the patterns the scanners transcribe (literal_regexes_pinned, Props/C14Regex.lean "
          "over Gen/LiteralRegex.lean); if not, the run searches at the thorough budget. Tie: every spelling of length <=4 (quick) / <=5 (thorough) over [0-9_.eExXoObB+-] through "
          "the real lexer, Python's parser, the Lean model and the Lean grammar, each accepted one also through "
-         "compile_expression and render; random strings over all code point classes (quotes, backslashes, line breaks, "
+         "compile_expression (default undefined_to_none and False, sync and async environments; the literal's own value and "
+         "type must come back, falsy values 0 / 0.0 / '' included) and render; random strings over all code point classes (quotes, backslashes, line breaks, "
          "controls, Latin-1, BMP, lone surrogates, astral) in repr, other-quote and mixed spellings with adjacent pieces "
          "through tokens, Environment.parse, compile_expression, render and the Lean model; random escape soups against "
          "eval and the Lean escape table; big integers in four bases with underscores; boundary and random floats in "
@@ -168,6 +169,39 @@ def e2e_value(env, expr):
         return ("error", type(e).__name__)
 
 
+ENVS = {}
+
+
+def async_env():
+    if "async" not in ENVS:
+        ENVS["async"] = core.import_jinja().Environment(enable_async=True)
+    return ENVS["async"]
+
+
+# (key suffix, description, async environment?, pass undefined_to_none=False?)
+ROUTES = (("", "compile_expression(undefined_to_none=False)", False, True),
+          (":default", "compile_expression (default undefined_to_none=True)", False, False),
+          (":async-default", "async-environment compile_expression (default undefined_to_none=True)", True, False),
+          (":async", "async-environment compile_expression(undefined_to_none=False)", True, True))
+
+
+def e2e_routes(env, expr, full=True, data=None):
+    """the value compile_expression hands out for the expression, per route: [(key suffix, description, value)].  A literal's
+    value must come back unchanged on every route (only an Undefined result may turn into None, and only by default)."""
+    out = []
+    for suffix, desc, is_async, explicit_false in ROUTES:
+        if is_async and not full:
+            continue
+        e = async_env() if is_async else env
+        try:
+            te = e.compile_expression(expr, undefined_to_none=False) if explicit_false else e.compile_expression(expr)
+            v = te(**(data or {}))
+        except Exception as ex:  # noqa
+            v = ("error", type(ex).__name__)
+        out.append((suffix, desc, v))
+    return out
+
+
 def e2e_value_data(env, expr, data):
     try:
         return env.compile_expression(expr, undefined_to_none=False)(**data)
@@ -206,22 +240,25 @@ def is_scalar_text(s):
 # (a) exhaustive number spellings
 # ---------------------------------------------------------------------------------------------------------
 
-def check_number_e2e(env, res, sp, pv, stats, via="enum"):
-    """value at render time for a spelling both sides read as the number pv"""
+def check_number_e2e(env, res, sp, pv, stats, full=True):
+    """value at render time for a spelling both sides read as the number pv: every compile_expression route, and render"""
     want = canon_num(pv)
-    got = e2e_value(env, sp)
-    stats["e2e"] += 1
-    if canon_num(got) != want:
-        if isinstance(pv, float) and pv in (float("inf"),) and got == ("error", "NameError"):
-            res.violate("C14:float-literal-inf:NameError",
-                        f"compile_expression({sp!r})() raises NameError (the float literal overflows to inf and is written "
-                        f"into the generated code as the bare name `inf`); Python's value of {sp!r} is inf",
-                        {"kind": "number", "spelling": sp})
-            stats["inf_nameerror"] += 1
-        else:
-            res.violate("C14:number:e2e-value",
-                        f"compile_expression({sp!r})() gives {got!r}; Python's {sp!r} is {pv!r}",
-                        {"kind": "number", "spelling": sp})
+    for suffix, desc, got in e2e_routes(env, sp, full):
+        stats["e2e"] += 1
+        stats["routes"][desc] = stats["routes"].get(desc, 0) + 1
+        if not pv:
+            stats["falsy_route_checks"] = stats.get("falsy_route_checks", 0) + 1
+        if canon_num(got) != want:
+            if isinstance(pv, float) and pv in (float("inf"),) and got == ("error", "NameError"):
+                res.violate("C14:float-literal-inf:NameError",
+                            f"compile_expression({sp!r})() raises NameError (the float literal overflows to inf and is written "
+                            f"into the generated code as the bare name `inf`); Python's value of {sp!r} is inf",
+                            {"kind": "number", "spelling": sp})
+                stats["inf_nameerror"] += 1
+            else:
+                res.violate("C14:number:e2e-value" + suffix,
+                            f"{desc}: {sp!r} evaluates to {got!r}; Python's {sp!r} is {pv!r} ({type(pv).__name__})",
+                            {"kind": "number", "spelling": sp, "route": desc})
     out = e2e_render(env, sp)
     if out != str(pv):
         res.violate("C14:number:e2e-render", f"{{{{ {sp} }}}} renders {out!r}; str of Python's value is {str(pv)!r}",
@@ -245,7 +282,7 @@ def run_numbers(ctx, res, env):
     model = {sp: lean_num(r) for sp, r in rep[1]}
     spec = {sp: spec_num(r) for sp, r in rep[2]}
     stats = {"spellings": 0, "jinja_one_number": 0, "python_number": 0, "model_one_number": len(model),
-             "spec_number": len(spec), "e2e": 0, "inf_nameerror": 0, "kinds": {"integer": 0, "float": 0},
+             "spec_number": len(spec), "e2e": 0, "routes": {}, "inf_nameerror": 0, "kinds": {"integer": 0, "float": 0},
              "python_only": 0}
     union = set()
     samples = []
@@ -288,8 +325,10 @@ def run_numbers(ctx, res, env):
                                 {"kind": "number", "spelling": sp})
                 else:
                     # end-to-end on every accepted spelling, except that plain 5-digit decimals are thinned (1 in 7)
+                    # the async-environment routes: every falsy value, every spelling of length <= 3, a fixed fraction of the rest
                     if L < 5 or not sp.isdigit() or stats["jinja_one_number"] % 7 == 0:
-                        check_number_e2e(env, res, sp, p, stats)
+                        full = (not p) or L <= 3 or stats["jinja_one_number"] % (8 if n <= 4 else 40) == 0
+                        check_number_e2e(env, res, sp, p, stats, full)
                     if len(samples) < 6 and ("_" in sp or "e" in sp.lower()) and L >= 3 and stats["jinja_one_number"] % 97 == 0:
                         samples.append({"spelling": sp, "value": repr(p)})
             # tie: model of the lexer + conversion == real lexer + conversion
@@ -447,15 +486,26 @@ def run_strings(ctx, res, env, jinja2):
     for i in range(ncases):
         mode = ("repr", "altquote", "core", "mixed", "adjacent", "adjacent")[i % 6]
         cases.append((mode, gen_string(rng, maxlen)))
+    # explicit spellings of the empty string and of pieces around empty strings (expression text, value)
+    explicit = [("''", ""), ('""', ""), ("'' \"\"", ""), ('""\'\'""', ""), ("''\n''", ""), ("''\t\"\"  ''", ""), ("'' 'a' ''", "a"),
+                ('"" "" "b"', "b"), ("'\\\n'", ""), ("'\\\n' ''", ""), ("'\\x00'", "\0"), ("'0'", "0"), ("' '", " ")]
+    for ex, val in explicit:
+        cases.append(("explicit", (ex, cps(val))))
     reqs, meta = [], []
     stats = {"cases": 0, "modes": {}, "classes": {}, "styles": {}, "model_oom": 0, "lengths": {"0": 0, "1-3": 0, "4-9": 0, "10+": 0},
              "pieces": {}, "repr_checked": 0, "spell_checked": 0}
     distinct = set()
     samples = []
     for mode, v in cases:
+        explicit_expr = None
+        if mode == "explicit":
+            explicit_expr, v = v
         s = "".join(map(chr, v))
         pieces = []          # (q, values, styles)
-        if mode == "repr":
+        if mode == "explicit":
+            expr = explicit_expr
+            pieces = None
+        elif mode == "repr":
             r = repr(s)
             expr = r
             pieces = None
@@ -504,12 +554,15 @@ def run_strings(ctx, res, env, jinja2):
         conv = convert(env, inner)
         tok_val = "".join(x[1] for x in conv) if not isinstance(conv, tuple) else conv
         pc = parse_const(env, jinja2, expr)
-        ev = e2e_value(env, expr)
         rd = e2e_render(env, expr)
-        for what, got in (("tokens", tok_val), ("parse", pc), ("compile_expression", ev), ("render", rd)):
+        routes = [("compile_expression" + suffix, desc, got) for suffix, desc, got in e2e_routes(env, expr, True)]
+        stats["route_checks"] = stats.get("route_checks", 0) + len(routes)
+        if not s:
+            stats["empty_value_route_checks"] = stats.get("empty_value_route_checks", 0) + len(routes)
+        for what, desc, got in [("tokens", "tokens", tok_val), ("parse", "Environment.parse", pc), ("render", "render", rd)] + routes:
             if got != s or type(got) is not str:
                 res.violate(f"C14:string:value:{mode}:{what}",
-                            f"{expr!r} written for {s!r} gives {got!r} via {what}", replay)
+                            f"{expr!r} written for {s!r} gives {got!r} via {desc}", dict(replay, route=desc))
         # Lean model of lexer + unescape + concatenation -----------------------------------------------
         reqs.append([Atom("lit-str"), cps(expr)])
         meta.append(("str", expr, v, tok_val, replay))
@@ -753,7 +806,8 @@ def float_spellings(rng, f):
 
 def run_values(ctx, res, env, jinja2):
     rng = ctx.rng("values")
-    stats = {"ints": 0, "floats": 0, "int_spellings": {}, "float_spellings": {}, "negated": 0, "bits_max": 0, "e2e": 0, "inf_nameerror": 0}
+    stats = {"ints": 0, "floats": 0, "int_spellings": {}, "float_spellings": {}, "negated": 0, "bits_max": 0, "e2e": 0, "routes": {}, "inf_nameerror": 0,
+             "zero_spellings": 0}
     ints = [0, 1, 7, 8, 9, 10, 255, 256, 2**31 - 1, 2**31, 2**63 - 1, 2**63, 2**64, 10**18, 10**100, 2**1000 - 1, 10**300 + 7]
     for _ in range(ctx.pick(150, 1500)):
         bits = rng.choice([3, 8, 16, 31, 32, 63, 64, 65, 100, 200, 500, 1000, 2000])
@@ -794,10 +848,11 @@ def run_values(ctx, res, env, jinja2):
             res.violate(f"C14:value:{'int' if isinstance(pv, int) else 'float'}:{tag}:parse",
                         f"{sp!r} written for {pv!r} parses to {pc!r}", replay)
         check_number_e2e(env, res, sp, pv, stats)
-        neg = e2e_value(env, "-" + sp)
-        stats["negated"] += 1
-        if canon_num(neg) != canon_num(-pv):
-            res.violate("C14:value:negated", f"-{sp} evaluates to {neg!r}, Python gives {-pv!r}", dict(replay, negated=True))
+        for suffix, desc, neg in e2e_routes(env, "-" + sp, True):
+            stats["negated"] += 1
+            if canon_num(neg) != canon_num(-pv):
+                res.violate("C14:value:negated" + suffix, f"{desc}: -{sp} evaluates to {neg!r}, Python gives {-pv!r}",
+                            dict(replay, negated=True, route=desc))
         reqs.append([Atom("lit-num"), cps(sp)])
         meta.append((sp, want, replay))
         if len(samples) < 5 and len(sp) > 8 and len(distinct) % 97 == 0:
@@ -812,6 +867,15 @@ def run_values(ctx, res, env, jinja2):
         stats["floats"] += 1
         for sp, tag in float_spellings(rng, f):
             one(sp, f, tag, stats["float_spellings"])
+    # every way of writing zero: all bases, underscores, leading zeros, exponents, underflow (the values are falsy)
+    for sp in ("0", "00", "0_0", "0000_0", "0x0", "0X0_0", "0x_0", "0b0", "0B_0", "0b0_0", "0o0", "0O00", "0o_0",
+               "0.0", "0e0", "0E5", "0e-5", "00.0", "0_0.0_0", "0.0e+10", "0.00E-0_1", "00e00",
+               "1e-400", "1E-999", "4.9e-325", "2e-324", "0.1e-3_23", "1_0e-4_00"):
+        pv = python_number(sp)
+        if pv is None or pv != 0:
+            raise core.HarnessError(f"generator: {sp!r} is not a Python spelling of zero")
+        stats["zero_spellings"] += 1
+        one(sp, pv, "zero", stats["int_spellings"] if isinstance(pv, int) else stats["float_spellings"])
     # spellings that overflow to inf: Python's value is inf
     for sp in ("1e309", "1e999", "2E308", "1_0e4_00", "179769313486231590000000000000000000000000000000000000000000000000000000000000000000000000000000000000000000000000000000000000000000000000000000000000000000000000000000000000000000000000000000000000000000000000000000000000000000000000000000000000000000000000000000000000000000000000000000000000000.0"):
         pv = python_number(sp)
@@ -838,9 +902,27 @@ def run_values(ctx, res, env, jinja2):
     return stats, samples, len(distinct)
 
 
+def run_undefined_mapping(ctx, res, env, jinja2):
+    """the one conversion compile_expression is allowed to make: an Undefined result becomes None by default, and only that"""
+    n = 0
+    for is_async, e in ((False, env), (True, async_env())):
+        for expr in ("missing", "ns.nothing", "ns['k']", "[][5]"):
+            n += 2
+            try:
+                d = e.compile_expression(expr)(ns={})
+                k = e.compile_expression(expr, undefined_to_none=False)(ns={})
+            except Exception as ex:  # noqa
+                d = k = ("error", type(ex).__name__)
+            if d is not None or not isinstance(k, jinja2.Undefined):
+                res.violate("C14:compile_expression:undefined-mapping",
+                            f"{'async ' if is_async else ''}compile_expression({expr!r}): default gives {d!r} (None expected), "
+                            f"undefined_to_none=False gives {k!r} (an Undefined expected)", {"kind": "undefined", "expr": expr})
+    return n
+
+
 # non-finite constants (inf from an overflowing literal, -inf, nan by constant folding) in every position --------------
 
-NONFINITE_EXPRS = ["1e999", "-1e999", "1e309", "1e999 - 1e999", "1e999 * 0", "-1e999 + 1e999", "1e999 + y", "y - 1e999",
+NONFINITE_EXPRS = ["0 * y", "y - 1", "0.0 * y", "-0.0", "-(0.0)", "'' + ''", "1e999", "-1e999", "1e309", "1e999 - 1e999", "1e999 * 0", "-1e999 + 1e999", "1e999 + y", "y - 1e999",
                    "1e999 if t else 2", "(1e999 - 1e999) if t else 0", "-1e999 if t else 0", "[1e999, -1e999, 1e999 - 1e999]",
                    "1e999 > y", "1e999 == 1e999", "(1e999 - 1e999) == (1e999 - 1e999)", "{'a': 1e999}['a'] + y",
                    "1_0e4_00 * 2", "2E308 / 1e999"]
@@ -857,14 +939,11 @@ def run_nonfinite(ctx, res, env):
     for e in NONFINITE_EXPRS:
         want = eval(compile(e, "<c14>", "eval"), {"__builtins__": {}}, dict(data))
         stats["expressions"] += 1
-        try:
-            got = env.compile_expression(e, undefined_to_none=False)(**data)
-        except Exception as ex:  # noqa
-            got = ("error", type(ex).__name__)
-        if repr(got) != repr(want):
-            key = ("C14:float-literal-inf:NameError" if got == ("error", "NameError") else "C14:float-nonfinite:expression")
-            res.violate(key, f"compile_expression({e!r})() gives {got!r}; Python's value is {want!r}",
-                        {"kind": "nonfinite", "expr": e})
+        for suffix, desc, got in e2e_routes(env, e, True, data):
+            if repr(got) != repr(want):
+                key = ("C14:float-literal-inf:NameError" if got == ("error", "NameError") else "C14:float-nonfinite:expression" + suffix)
+                res.violate(key, f"{desc}: {e!r} evaluates to {got!r}; Python's value is {want!r}",
+                            {"kind": "nonfinite", "expr": e, "route": desc})
         for tpl in NONFINITE_TEMPLATES:
             src = tpl % e
             stats["templates"] += 1
@@ -891,7 +970,9 @@ def run(ctx, res):
         ustats, udist = run_soups(ctx, res, env)
         vstats, vsamples, vdist = run_values(ctx, res, env, jinja2)
         fstats = run_nonfinite(ctx, res, env)
-    evaluations = (nstats["spellings"] + nstats["e2e"] * 2 + sstats["cases"] * 4 + ustats["cases"] + vstats["e2e"] * 2
+        fstats["undefined_mapping_checks"] = run_undefined_mapping(ctx, res, env, jinja2)
+    evaluations = (nstats["spellings"] + nstats["e2e"] + nstats["jinja_one_number"] + sstats["cases"] * 3
+                   + sstats.get("route_checks", 0) + ustats["cases"] + vstats["e2e"] + vstats["ints"] + vstats["floats"]
                    + vstats["negated"] + fstats["expressions"] + fstats["templates"])
     res.coverage.update({
         "evaluations": evaluations,
@@ -927,12 +1008,14 @@ def replay(ctx, case):
         if c["kind"] == "number":
             sp = ("-" if c.get("negated") else "") + c["spelling"]
             return {"spelling": sp, "tokens": repr(raw_inner(env, sp)), "jinja_number": repr(jinja_number(env, c["spelling"])),
-                    "python": repr(python_number(c["spelling"])), "compile_expression": repr(e2e_value(env, sp)),
+                    "python": repr(python_number(c["spelling"])),
+                    "compile_expression": {d: repr(v) for _, d, v in e2e_routes(env, sp, True)},
                     "render": repr(e2e_render(env, sp))}
         if c["kind"] == "string":
             expr = "".join(map(chr, c["expr"]))
             return {"expr": expr, "wanted": c["value"], "tokens": repr(raw_inner(env, expr)),
-                    "parse": repr(parse_const(env, jinja2, expr)), "compile_expression": repr(e2e_value(env, expr)),
+                    "parse": repr(parse_const(env, jinja2, expr)),
+                    "compile_expression": {d: repr(v) for _, d, v in e2e_routes(env, expr, True)},
                     "render": repr(e2e_render(env, expr))}
         if c["kind"] == "nonfinite":
             data = {"t": True, "y": 1}
